@@ -34,7 +34,18 @@ func init() {
 	})
 }
 
+// Arguments of interface types accept $nil; commands that cannot do anything
+// useful with it reject it explicitly.
+func errNilArg(what, valid string) error {
+	return errs.BadValue{What: what, Valid: valid, Actual: "$nil"}
+}
+
 func runParallel(fm *Frame, functions ...Callable) error {
+	for _, function := range functions {
+		if function == nil {
+			return errNilArg("function", "callable")
+		}
+	}
 	var wg sync.WaitGroup
 	wg.Add(len(functions))
 	exceptions := make([]Exception, len(functions))
@@ -60,6 +71,9 @@ func runParallel(fm *Frame, functions ...Callable) error {
 }
 
 func each(fm *Frame, f Callable, inputs Inputs) error {
+	if f == nil {
+		return errNilArg("function", "callable")
+	}
 	broken := false
 	var err error
 	inputs(func(v any) {
@@ -89,6 +103,9 @@ type peachOpt struct{ NumWorkers vals.Num }
 func (o *peachOpt) SetDefaultOptions() { o.NumWorkers = math.Inf(1) }
 
 func peach(fm *Frame, opts peachOpt, f Callable, inputs Inputs) error {
+	if f == nil {
+		return errNilArg("function", "callable")
+	}
 	var wg sync.WaitGroup
 	var broken int32
 	var errMu sync.Mutex
